@@ -551,7 +551,7 @@ pub fn run_c13(ctx: &Ctx, rep: &mut Report) {
         }
     });
     // adversarial text
-    let n = ctx.budget(40_000, 1_500_000, 12, 20_000);
+    let n = ctx.budget(400_000, 5_000_000, 12, 20_000);
     ctx.cases(rep, "text", n / 200 + 1, |_gid, rng, rep| {
         let per = if miri { 30 } else { 200 };
         for i in 0..per {
@@ -772,7 +772,7 @@ pub fn run_c20(ctx: &Ctx, rep: &mut Report) {
         rep.sample("all 64 singletons: from_square/to_square/set/from_maybe_square/iteration".to_string());
     });
     let sv = structured_values();
-    let n = ctx.budget(400, 8000, 2, 200);
+    let n = ctx.budget(2500, 30_000, 2, 200);
     ctx.cases(rep, "algebra", n, |gid, rng, rep| {
         let per = if miri { 12 } else { 1500 };
         for i in 0..per {
@@ -1005,7 +1005,7 @@ pub fn run_c19(ctx: &Ctx, rep: &mut Report) {
         }
     });
     // op sequences: every size 2^0..2^max, several sequences each, three value types
-    let reps = ctx.budget(6, 60, 1, 3);
+    let reps = ctx.budget(40, 300, 1, 3);
     ctx.cases(rep, "ops", (max_log2 as u64 + 1) * reps, |gid, rng, rep| {
         let k = (gid % (max_log2 as u64 + 1)) as u32;
         let size = 1usize << k;
